@@ -2677,3 +2677,22 @@ package sdf
 //@   ensures [the-operand-at-the-unscaled-uncentred-point-with-distance-scaled-back] d == k*s.Evaluate(p.MulScalar(1/k).Add(c))
 //@   ensures [and-the-box-encloses-the-solid] d < 0 ==> r.BoundingBox().Contains(p)
 //@ end
+
+//@ func Union2D
+//@   property C03
+//@   id LIP
+//@   summarise UnionSDF2.Evaluate pruned-is-the-minimum-for-any-number-of-operands
+//@   opt opaque MinMaxDist2
+//@   forall p v2.Vec, q v2.Vec
+//@   requires forall k int :: 0 <= k && k < len(sdf) && !isnil(sdf[k]) ==> ord2(sdf[k].BoundingBox())
+//@   requires forall k int, a v2.Vec, b v2.Vec :: 0 <= k && k < len(sdf) && !isnil(sdf[k]) ==> lip2(sdf[k], a, b)
+//@   requires forall k int, a v2.Vec :: 0 <= k && k < len(sdf) && !isnil(sdf[k]) ==> l2(sdf[k], a) && up(sdf[k], a)
+//@   invariant 0 rangeindex >= -1 && rangeindex < len(sdf) && len(s.sdf) <= rangeindex + 1
+//@   invariant 0 forall j int :: 0 <= j && j < len(s.sdf) ==> !isnil(s.sdf[j]) && ord2(s.sdf[j].BoundingBox())
+//@   invariant 0 forall j int, a v2.Vec, b v2.Vec :: 0 <= j && j < len(s.sdf) ==> lip2(s.sdf[j], a, b)
+//@   invariant 0 forall j int, a v2.Vec :: 0 <= j && j < len(s.sdf) ==> l2(s.sdf[j], a) && up(s.sdf[j], a)
+//@   invariant 1 rangeindex >= -1 && rangeindex < len(s.sdf)
+//@   let dp = r.Evaluate(p)
+//@   let dq = r.Evaluate(q)
+//@   ensures [one-lipschitz-whatever-the-number-of-operands] !isnil(r) ==> sq(dp - dq) <= p.Sub(q).Length2()
+//@ end
